@@ -71,6 +71,9 @@ func zzNondetReq(tag string) zzReq {
 	q.bid = zzverif.Choose(tag+".blockid", 3)
 	q.ts = zzverif.Choose(tag+".ts", 2)
 	q.polRound = -1
+	if zzverif.Thorough() && q.isProposal {
+		q.polRound = int32(zzverif.NondetI64In(tag+".polRound", -1, 1<<20))
+	}
 	return q
 }
 
@@ -97,7 +100,7 @@ func (q zzReq) signBytes() []byte {
 	return tmtypes.VoteSignBytes(zzChain, q.vote())
 }
 func (q zzReq) sameUpToTimestamp(o zzReq) bool {
-	return q.isProposal == o.isProposal && q.h == o.h && q.r == o.r && (q.isProposal || q.typ == o.typ) && q.bid == o.bid
+	return q.isProposal == o.isProposal && q.h == o.h && q.r == o.r && (q.isProposal || q.typ == o.typ) && q.bid == o.bid && q.polRound == o.polRound
 }
 
 // lexicographic comparison of (h,r,s): -1,0,1
